@@ -12,7 +12,9 @@ Record kcfg := {
   k_nil : bool;                 (* a nil *FormatterFilter *)
   k_source : option bytes; k_schema : option bytes; k_format : cformat;
   k_pred : N;                   (* 0 absent 1 true 2 false, anything else: an error *)
-  k_signer : N;                 (* 0 absent 1 succeeds 2 fails 3 succeeds with an empty result *)
+  k_signer : N;                 (* 0 absent 1 succeeds 2 fails 3 succeeds with an empty result
+                                   4 honours the context: fails with ctx.Err() when the context handed to Process is done,
+                                     succeeds like 1 otherwise *)
   k_tag : bytes;                (* prefix of the harness signer's result *)
   k_types : list bytes }.
 Record cobs := {
@@ -25,7 +27,10 @@ Record cobs := {
   b_later : N }.                (* number of later Process calls after which it was first seen changed; 0: never *)           (* Go's time parser reads the stored document's time member back as the event's instant
                                    (true when nothing is stored) *)
 Record kcase := {
-  k_cfg : kcfg; k_evnil : bool; k_type : bytes; k_time : option bytes; k_payload : kpayload; k_pre : table;
+  k_cfg : kcfg;
+  k_ctx_done : bool;   (* the context handed to Process was already done (cancelled, past deadline, custom Err() <> nil): the
+                          model ignores the context except through the answer of a signer that honours it *)
+  k_evnil : bool; k_type : bytes; k_time : option bytes; k_payload : kpayload; k_pre : table;
   k_fresh : bytes; k_obs : cobs }.
 
 (* a history on ONE FormatterFilter: Process calls (each with its own event) and Rotate calls *)
@@ -63,22 +68,23 @@ Definition sumN (b : bytes) : N := fold_left N.add b 0.
 Definition wsum (b : bytes) : N := fold_left (fun acc x => (acc * 31 + x) mod 1000003) b 7.
 Definition sig_fn (tag b : bytes) : bytes :=
   tag ++ [65 + sumN b mod 26; 97 + N.of_nat (length b) mod 26; 48 + wsum b mod 10; 48 + (wsum b / 10) mod 10].
-Definition signer_of (k : kcfg) : option (bytes -> sres) :=
+Definition signer_of (k : kcfg) (ctx_done : bool) : option (bytes -> sres) :=
   if k_signer k =? 0 then None
   else if k_signer k =? 1 then Some (fun b => SigOk (sig_fn (k_tag k) b))
+  else if k_signer k =? 4 then Some (fun b => if ctx_done then SigErr else SigOk (sig_fn (k_tag k) b))
   else if k_signer k =? 2 then Some (fun _ => SigErr)
   else Some (fun _ => SigOk []).
 
-Definition cfg_of (k : kcfg) : option cfg :=
+Definition cfg_of (k : kcfg) (ctx_done : bool) : option cfg :=
   if k_nil k then None else
   Some {| c_source := k_source k; c_schema := k_schema k; c_format := k_format k; c_pred := pred_opt (k_pred k);
-          c_signer := signer_of k; c_sign_types := k_types k |}.
+          c_signer := signer_of k ctx_done; c_sign_types := k_types k |}.
 Definition ev_of (c : kcase) : option (event kpayload) :=
   if k_evnil c then None else
   Some {| ev_type := k_type c; ev_time := k_time c; ev_payload := k_payload c; ev_fmt := k_pre c |}.
 
 Definition model_ce (c : kcase) : option (event kpayload) * outcome * list bytes :=
-  process y_id y_data (cfg_of (k_cfg c)) (ev_of c) (Some (k_fresh c)).
+  process y_id y_data (cfg_of (k_cfg c) (k_ctx_done c)) (ev_of c) (Some (k_fresh c)).
 
 Fixpoint mget (k : bytes) (ms : list (bytes * jv)) : option jv :=
   match ms with [] => None | (k', v) :: t => if beqb k k' then Some v else mget k t end.
@@ -92,7 +98,7 @@ Fixpoint nodupb (l : list bytes) : bool :=
 
 Definition other_than (f : N) (t : table) : table := List.filter (fun kv => negb (fst kv =? f)) t.
 Definition opkind (c : kcase) : N :=
-  match cfg_of (k_cfg c) with
+  match cfg_of (k_cfg c) false with
   | Some cf => if valid cf then (match k_format (k_cfg c) with FText => 2 | _ => 1 end) else 3
   | None => 3
   end.
@@ -123,7 +129,7 @@ Definition ser_ok (k : kcfg) (c : kcase) (ms : list (bytes * jv)) (calls : list 
         (* serialized decodes to the bytes the signer was given ... *)
         (match Base64.decode s with Some u' => beqb u' u | None => false end)
         (* ... serialized_hmac is the signer's result on them ... *)
-        && str_or_absent (mget s_serialized_hmac ms) (sanitize (if k_signer k =? 1 then sig_fn (k_tag k) u else []))
+        && str_or_absent (mget s_serialized_hmac ms) (sanitize (if (k_signer k =? 1) || (k_signer k =? 4) then sig_fn (k_tag k) u else []))
         (* ... and they are the unsigned document: the stored one without the two signature members *)
         && (match parse_doc u with Some (JObj us) => jv_eqb (JObj us) (JObj (drop_sig ms)) | _ => false end)
     | _, _ => false
@@ -189,7 +195,7 @@ Definition run_ce (c : kcase) : list kind :=
    else KStoredMutated :: (if negb (b_err o) then doc_checks k c (b_calls o) true final else [])).
 
 Definition set_cfg (c : kcase) (k : kcfg) : kcase :=
-  {| k_cfg := k; k_evnil := k_evnil c; k_type := k_type c; k_time := k_time c; k_payload := k_payload c; k_pre := k_pre c;
+  {| k_cfg := k; k_ctx_done := k_ctx_done c; k_evnil := k_evnil c; k_type := k_type c; k_time := k_time c; k_payload := k_payload c; k_pre := k_pre c;
      k_fresh := k_fresh c; k_obs := k_obs c |}.
 Definition with_signer (k : kcfg) (s : N) (tag : bytes) : kcfg :=
   {| k_nil := k_nil k; k_source := k_source k; k_schema := k_schema k; k_format := k_format k; k_pred := k_pred k;
